@@ -51,6 +51,10 @@ ANGLES2 = '''
 DISGUISED = '''
      Disguise each change: embed it in a plausible, otherwise behaviour-preserving refactoring of the surrounding function(s) - renamed locals, an extracted private helper, restructured conditionals (early returns, a flag, merged or split tests), a comprehension turned into a loop or back, f-strings turned into str.format - so that the diff is 15 to 50 lines and the faulty part is not obvious from the diff. Apart from the one fault, the refactoring must keep the behaviour exactly. The three faults themselves must be of three different kinds.'''
 
+ANGLES3 = '''
+     Make the three changes come from three different angles: (G) an omission - something that has to happen on every path, for every element or in every branch is left out in ONE of them (an early return, an exception branch, an `else`, the last / first element, one of several sibling classes or methods that should behave alike); (H) an ordering - two steps swapped, or a step moved across a condition, loop, `try` or lock boundary, so that the result is the same unless something happens in between or one of the steps fails; (I) scope or identity - a value computed once and shared where it must be computed per item / per call (or the reverse), an object aliased where it must be copied (or copied where it must be shared), a name / key / path built from the wrong one of two similar-looking variables. At least one of the three should additionally be embedded in a plausible, otherwise behaviour-preserving refactoring of the surrounding function (renamed locals, an extracted helper, restructured conditionals), so that the diff reads like routine maintenance.
+'''
+
 AVOID = '''
      At most ONE of the three changes may consist of adding a cache / memo / stored flag; the others must be of a different kind (conditions, ordering of statements, arguments passed, names / keys / paths computed, error handling, iteration, copying vs aliasing, locking, what is written where).'''
 
@@ -84,7 +88,7 @@ def main():
     kind, ids, wt = sys.argv[1], sys.argv[2].split(','), sys.argv[3]
     if kind == 'seeded':
         p = PROPS[ids[0]]
-        print(SEEDED.format(wt=wt, prop=json.dumps(p, indent=1), pid=ids[0], extra=(AVOID if '--avoid-caches' in sys.argv else '') + (DIVERSE if '--diverse' in sys.argv else '') + (ANGLES if '--angles' in sys.argv else '') + (ANGLES2 if '--angles2' in sys.argv else '') + (DISGUISED if '--disguised' in sys.argv else '')))
+        print(SEEDED.format(wt=wt, prop=json.dumps(p, indent=1), pid=ids[0], extra=(AVOID if '--avoid-caches' in sys.argv else '') + (DIVERSE if '--diverse' in sys.argv else '') + (ANGLES if '--angles' in sys.argv else '') + (ANGLES3 if '--angles3' in sys.argv else '') + (ANGLES2 if '--angles2' in sys.argv else '') + (DISGUISED if '--disguised' in sys.argv else '')))
     else:
         recs = []
         for i in ids:
